@@ -6,7 +6,10 @@ every implementation answer is judged against the property text: each candidate 
 that meet only at the root plus one non-tree edge, recorded weight = true weight; FVS and ISO collections are sub-collections of Horton's;
 greedy selection by weight under GF(2) independence reaches the optimum weight and dimension on each collection (optimum from an own
 Horton+Gauss oracle over independently computed shortest-path trees, cross-checked against the verified reference `optw` when it builds).
-Weight types: double (A), int (AI) and long long (AL: 64-bit weights above 2^53, see props/c12.py weigh64; model and judge compute with unbounded integers)."""
+Weight types: double (A), int (AI) and long long (AL: 64-bit weights above 2^53, see props/c12.py weigh64; model and judge compute with unbounded integers).
+AX: the caller's double weights are handed over through an EXTERNAL property map while the graph's interior edge_weight property holds decoys (recorded
+weights must be the caller's).  AS scale: double weights times 2^scale (tiny / huge magnitudes, exact; the answer in the case's units must not change);
+A with ~50-bit integer-valued doubles (props/c12.py weigh_mant: every path and cycle sum still exact)."""
 import json, heapq, os, concurrent.futures as cf
 import lib, gen
 
@@ -21,8 +24,14 @@ GROUP = "c14"
 # ---------------------------------------------------------------------------------------------------------
 def parse_case(case):
     t = case.split()
-    n, es, _ = lib.parse_graph_tokens(t, 1)
+    n, es, _ = lib.parse_graph_tokens(t, 2 if t[0] == "AS" else 1)      # AS scale <graph>
     return t[0], n, es
+
+
+def model_case(case, fv):
+    """the model computes over Z in the case's units: every kind is given to it as A (AS without its scale), followed by the recovered feedback vertex set"""
+    kind, n, es = parse_case(case)
+    return "A %s %d %s" % (gen.graph_tokens((n, es)), len(fv), " ".join(map(str, fv)))
 
 
 def parse_answer(n, line):
@@ -222,6 +231,16 @@ def gen_cases(rng, tier):
         if len(g[1]) - g[0] + gen.components(g[0], g[1]) < 1 and rng.random() < 0.8: continue      # mostly graphs with cycles
         g, style = c12.weigh64(rng, g)
         cases.append("AL " + gen.graph_tokens(g)); n64 += 1
+    # external weight map with decoys in the interior property (AX); doubles times 2^scale (AS) and ~50-bit integer-valued doubles (A): small tie-heavy graphs
+    q = tier == "quick"
+    nx = 0
+    while nx < (60 if q else 600):
+        g = c12.small_tie_graph(rng) if rng.random() < 0.5 else (c12.tie_family(rng, maxn) if rng.random() < 0.5 else gen.structural(rng, maxn))
+        if g[0] > maxn or len(g[1]) > maxm or len(g[1]) - g[0] + gen.components(g[0], g[1]) < 1: continue
+        g, style = gen.weigh(rng, g, rng.choice(["ties", "ties", "wide", "wide", "pow2"]))
+        cases.append("AX " + gen.graph_tokens(g)); nx += 1
+    for scale, g in c12.extreme_double_graphs(rng, 63 if q else 630, 60 if q else 600):
+        cases.append(("AS %d %s" % (scale, gen.graph_tokens(g))) if scale is not None else "A " + gen.graph_tokens(g))
     return cases
 
 
@@ -249,7 +268,9 @@ def reference_opts(cases, limit_m):
 def check(tier, seed):
     c = lib.Check(PID, tier, seed, THEOREMS)
     c.rule = ("graphs n <= %d, m <= %d from tie-heavy families (grids, hypercubes, K_ab, wheels, K_n, Petersen, theta) and gen.structural (forests, disconnected, "
-              "random), weights unit/ties/wide/pow2 (double), unit/ties/wide (int) and 64-bit weights above 2^53 with (m+4)*sum(w) < 2^63 (long long); per graph the Horton, FVS and isometric collections with all trees; exact comparison "
+              "random), weights unit/ties/wide/pow2 (double), unit/ties/wide (int) and 64-bit weights above 2^53 with (m+4)*sum(w) < 2^63 (long long); double weights through an external property map with decoys in the interior property (AX); "
+              "small tie-heavy graphs with double weights times 2^scale (scale in -1000,-300,-70,-20,40,300,900; AS) and with ~50-bit integer-valued doubles W-r, W ~ 9e15/(n+1) "
+              "(all path and cycle sums exact); per graph the Horton, FVS and isometric collections with all trees; exact comparison "
               "(emission order) with the model under the recovered feedback vertex set, plus the independent judge; distinct by md5; non-trivial = cycle space dimension >= 1") % ((12, 40) if tier == "quick" else (32, 90))
     c.step_prove()
     ok = c.step_model(GROUP)
@@ -264,7 +285,7 @@ def check(tier, seed):
         for cs, o in zip(cases, io):
             kind, n, es = parse_case(cs)
             fv = fvs_of(n, o)
-            mcases.append("%s %d %s" % (cs, len(fv), " ".join(map(str, fv))))
+            mcases.append(model_case(cs, fv))
         mo = lib.run_model("c14", mcases, group=GROUP)
         opts, have_ref = reference_opts(cases, 40 if tier == "quick" else 55)
         c.extra["verified_reference_optimum_used_for"] = sum(1 for o in opts if o is not None)
@@ -309,7 +330,7 @@ def replay(path):
     i = lib.run_lines([exe], [line], par=1)[0]
     kind, n, es = parse_case(line)
     fv = fvs_of(n, i)
-    m = lib.run_model("c14", ["%s %d %s" % (line, len(fv), " ".join(map(str, fv)))], par=1, group=GROUP)[0]
+    m = lib.run_model("c14", [model_case(line, fv)], par=1, group=GROUP)[0]
     why = judge(line, i)
     print("case :", line); print("impl :", i[:2000]); print("model:", m[:2000]); print("judge:", why)
     if why or m != i:
